@@ -454,6 +454,7 @@ func init() {
 			"plus 12 cases in which 8 targets with different payloads/encodings are scraped concurrently through one proxy over a real HTTP hop, three rounds each, plus four rendezvous pairs of gzip scrapes whose harness-owned ResponseWriters hold both scrapes between the request to the target and the streaming of the body; oracle = byte equality of what Prometheus received with the target's body after decompression, status 200, same Content-Type; runs from the -race binary (the parser calls back concurrently); " +
 			"plus, in each of those 12 cases, two scrapes during which the administrative stop is lifted / set while the real request is held in the harness transport: a complete 200 response must carry the target's bytes; " +
 			"plus, per shape, targets that pick the content coding from the request's Accept-Encoding (deflate if offered, else gzip, else identity); " +
+			"plus 2 cases in which a reload raises the job's scrape_timeout from 1 s to 120 s and a target then answers completely after 1.6 s; " +
 			"plus 4 cases with a scrape_timeout of 1.9 s / 2.5 s and a target that answers completely after 1.3 s / 2.2 s: a delivery that breaks off before the configured timeout has passed is a violation, a later one decides nothing (a really loaded machine), three tries; " +
 			"plus 3/12 cases on the REAL sidecar process (proxy started by Proxy.Run) with a loopback target whose header, tail or parts of a 200-300 KB body arrive over 11-31 s (scrape_timeout 120 s); " +
 			"non-trivial = every case; distinct = (shape, encoding, mode, assigned, short-write size, chunking)",
